@@ -937,11 +937,14 @@ type kickAction struct {
 
 var errEmptyId = group.ProtocolError("empty id")
 
+// remove removes all occurrences of v from l.
 func remove(v string, l []string) []string {
-	for i, w := range l {
-		if v == w {
+	i := 0
+	for i < len(l) {
+		if l[i] == v {
 			l = append(l[:i], l[i+1:]...)
-			return l
+		} else {
+			i++
 		}
 	}
 	return l
